@@ -1,6 +1,6 @@
 SPECIFICATION Spec
 CONSTANTS
-  Pairs <- MCPairs
+  Pairs <- MCPairsL
   AB_H = 8
   AB_N = 5
   U_H = 5
